@@ -831,7 +831,7 @@ Proof.
     rewrite Ex. sbg. rewrite A1, A3, Eb.
     split; [reflexivity|split; [reflexivity|split; [apply merge_bump; auto|
       split; [exact A4|split; [exact A5|]]]]].
-    intros C. destruct (A6 C) as [B1 _]. split; [exact B1|exact E].
+    intros C. destruct (A6 C) as [B1 B2]. split; [exact B1|exact B2].
   - (* push_sync *)
     exists (tb s), [], [], 0. cbn [render fst snd]. sb_simpl. cbn [cof map]. rewrite app_nil_r.
     split; [reflexivity|split; [reflexivity|split; [exact Eb|split; [|split]]]].
